@@ -554,7 +554,8 @@ def part_from_matchfile(
         barline_in_quarters = (
             onset_in_quarters[a_note_id_in_this_bar] - bar_offset - beat_offset
         )
-        bar_times[b_name] = barline_in_quarters
+        # barlines lie on the grid of divisions (`OnsetInBeats` has 4 decimals only)
+        bar_times[b_name] = float(np.round(divs * barline_in_quarters) / divs)
 
     for ni, note in enumerate(snotes):
         # start of bar in quarter units
@@ -731,7 +732,7 @@ def part_from_matchfile(
         ts_beat_type = tsg.denominator
         # check if time signature is in a known measure (from notes)
         if ts_bar in bar_times.keys():
-            bar_start_divs = int(divs * (bar_times[ts_bar] - offset))  # in quarters
+            bar_start_divs = int(round(divs * (bar_times[ts_bar] - offset)))  # in quarters
             bar_start_divs = max(0, bar_start_divs)
         else:
             bar_start_divs = 0
@@ -739,7 +740,7 @@ def part_from_matchfile(
     # add key signatures
     for ks_beat_time, ks_bar, keys in mf.key_signatures:
         if ks_bar in bar_times.keys():
-            bar_start_divs = int(divs * (bar_times[ks_bar] - offset))  # in quarters
+            bar_start_divs = int(round(divs * (bar_times[ks_bar] - offset)))  # in quarters
             bar_start_divs = max(0, bar_start_divs)
         else:
             bar_start_divs = 0
